@@ -262,12 +262,71 @@ def run(ctx):
     from . import scope
     scope.rule_who_raises_ref_error(ctx, "R11.14")
     rule_meta_keys_known(ctx)
+    rule_load_schema_faithful(ctx)
+    # R11.17: one check_schema call is one validation of the candidate: the validator doing it keeps no memo of type answers or verdicts between
+    # the members it looks at (2.0 and 2.5 are both floats, and only one is an integer) (C11-r6m2)
+    from .c07 import rule_validator_state
+    rule_validator_state(ctx, "R11.17")
     try:
         from .c03 import rule_metaschema_shapes
     except ImportError:
         rule_metaschema_shapes = None
     if rule_metaschema_shapes is not None:
         rule_metaschema_shapes(ctx, "R11.4")
+
+
+def rule_load_schema_faithful(ctx, rid="R11.16"):
+    """META_SCHEMA is what the bundled file says: load_schema, evaluated by sa/tokeval.py on each of the four files (pkgutil.get_data
+    answering from the tree under analysis), must return exactly the JSON value of the file -- every member, title and description
+    included (inside `properties` those are *property names*), numbers with their types."""
+    from ..tokeval import Ev, Undecided, PyRaise, PkgData
+    prog = ctx.prog
+    f = prog.func("_utils.load_schema")
+    r = ctx.rule(rid, "load_schema returns the bundled file's JSON value unchanged", floor=4)
+
+    def diff(a, b, path="#"):
+        if type(a) is not type(b):
+            return "%s: %s in the file, %s loaded" % (path, type(a).__name__, type(b).__name__)
+        if isinstance(a, dict):
+            for k in a:
+                if k not in b:
+                    return "%s: member %r of the file is missing from what load_schema returns" % (path, k)
+            for k in b:
+                if k not in a:
+                    return "%s: member %r is not in the file" % (path, k)
+            for k in a:
+                d_ = diff(a[k], b[k], path + "/" + k)
+                if d_:
+                    return d_
+            return None
+        if isinstance(a, list):
+            if len(a) != len(b):
+                return "%s: %d elements in the file, %d loaded" % (path, len(a), len(b))
+            for i, (x, y) in enumerate(zip(a, b)):
+                d_ = diff(x, y, "%s/%d" % (path, i))
+                if d_:
+                    return d_
+            return None
+        return None if a == b else "%s: %r in the file, %r loaded" % (path, a, b)
+    for d in DRAFTS:
+        where = "jsonschema/schemas/%s.json via %s" % (d, f.qual)
+        try:
+            ev = Ev(prog, fuel=200000)
+            ev.ext["pkgutil"] = PkgData(prog)
+            got = ev.call_func(f, [d], {})
+        except Undecided as u:
+            r.ok(where, "NOT DECIDED: %s" % u)
+            r.note(site(f), "%s not decided for %s" % (rid, d))
+            continue
+        except PyRaise as pr:
+            r.fail("%s|load|%s|raises" % (f.qual, d), site(f), "load_schema(%r) raises %s (%s)" % (d, pr.name, pr.msg))
+            continue
+        why = diff(prog.schemas[d], got)
+        if why:
+            r.fail("%s|load|%s|altered" % (f.qual, d), site(f), "load_schema(%r) does not return the file's value: %s" % (d, why))
+        else:
+            r.ok(where, "the loaded value is the file's JSON value, member for member")
+    return r
 
 
 ANNOTATIONS = {"$schema", "id", "$id", "title", "description", "default", "definitions", "examples", "$comment", "format", "readOnly", "$ref"}
